@@ -43,20 +43,22 @@ def encode(y_id, enc):
 
 
 def gen_cases(tier, seed):
-    reps = {"quick": 4, "thorough": 40}[tier]
+    reps = {"quick": 12, "thorough": 60}[tier]
     cases = []
     encs = list(ENCODINGS)
     for name, e in POOL.items():
         for i in range(max(2, reps // e.slow)):
-            cases.append({"family": "pool", "entry": name, "seed": stable_hash(seed, "C09", name, i), "enc": encs[i % len(encs)],
+            cases.append({"family": "pool", "entry": name, "seed": stable_hash(seed, "C09", name, i), "enc": encs[(i + stable_hash(seed, name)) % len(encs)],
                           "nmax": 12 if tier == "quick" else 20, "labels": ["half", "random", "unobserved", "one"][i % 4],
-                          "variant": ["plain", "feat", "x_eval"][(i // 2) % 3]})
+                          "variant": ["plain", "feat", "x_eval"][(i + stable_hash(seed, name, "v")) % 3]})
     for name in streams.STRAT_NAMES:
         for i in range(max(1, reps // 2)):
-            cases.append({"family": "stream", "name": name, "seed": stable_hash(seed, "C09", "s", name, i), "enc": encs[i % len(encs)]})
+            cases.append({"family": "stream", "name": name, "seed": stable_hash(seed, "C09", "s", name, i),
+                          "enc": encs[(i + stable_hash(seed, name)) % len(encs)]})
     for name in models.CLASSIFIERS:
         for i in range(reps):
-            cases.append({"family": "clf", "name": name, "seed": stable_hash(seed, "C09", "c", name, i), "enc": encs[i % len(encs)],
+            cases.append({"family": "clf", "name": name, "seed": stable_hash(seed, "C09", "c", name, i),
+                          "enc": encs[(i + stable_hash(seed, name)) % len(encs)],
                           "explicit_member_classes": bool(i % 2)})
     for k, c in enumerate(cases):
         c["id"] = "%s-%s-%s-%04d" % (c["family"], c.get("entry") or c.get("name"), c["enc"], k)
